@@ -8,7 +8,7 @@ Import ListNotations.
 Open Scope string_scope.
 
 Theorem C19_driver_stateless :
-  loess_self_writes = [] /\ polynomial_class_state = [] /\ polynomial_module_state = [] /\
+  loess_module_data_used = [] /\ loess_self_writes = [] /\ polynomial_class_state = [] /\ polynomial_module_state = [] /\
   (forall a, In a loess_self_reads -> In a ["_polynomial"; "_setup_polynomial"; "_size"; "x"; "x_domain"]) /\
   (forall a, In a loess_self_calls -> In a ["_setup_polynomial"]) /\
   (forall f d, In (f, d) loess_strategy_functions -> forall e, In e d -> e = "jit(nopython=True, cache=True)").
